@@ -7,7 +7,7 @@ rows = []
 # confirmed to fail their demo, but they do not break the property as stated (see DESIGN.md)
 NOT_KEPT = {('C09', 'r4-2'), ('C11', 'r5-2'), ('C09', 'r6-1'), ('C09', 'r7-1'), ('C08', 'r7-2'),
             ('C18', 'r7-2'), ('C08', 'r8-1'), ('C08', 'r8-2'), ('C18', 'r8-1'), ('C11', 'r8-1'), ('C08', 'r9-1'), ('C11', 'r9-1'), ('C02', 'r10-2'), ('C11', 'r10-1'), ('C11', 'r10-2'),
-            ('C08', 'r11-2'), ('C10', 'r11-2'), ('C12', 'r11-2'), ('C18', 'r11-1')}
+            ('C08', 'r11-2')}
 # filed under the property the sub-agent was given, but the property it breaks is another one
 BREAKS = {('C15', 'r5-1'): 'C01', ('C03', 'r6-2'): 'C01', ('C01', 'r9-2'): 'C03', ('C20', 'r9-2'): 'C12',
           ('C04', 'r11-2'): 'C11'}
